@@ -1627,17 +1627,17 @@ class Mapping:
         return inProduct, inVersion
 
     def merge(self, other, overwrite=True):
-        """merge two mappings, overwriting existing entries is optional"""
+        """merge two mappings row by row; overwriting existing rows is optional"""
 
         for o, s in [(other._mapping, self._mapping),
                      (other._noReinstall, self._noReinstall)]:
-            for p in o.keys():
-                for v in o[p].keys():
-                    if p not in s:
-                        s[p] = {}
-                    if not overwrite and v in s[p]:
-                        continue
-                    s[p][v] = o[p][v]
+            for f in o.keys():
+                for p in o[f].keys():
+                    rows = s.setdefault(f, {}).setdefault(p, {})
+                    for v in o[f][p].keys():
+                        if not overwrite and v in rows:
+                            continue
+                        rows[v] = o[f][p][v]
 
     def inverse(self):
         """Calculate the inverse Mapping.
